@@ -33,6 +33,7 @@ import (
 	"github.com/prometheus/common/promslog"
 	"github.com/prometheus/prometheus/model/labels"
 	"github.com/prometheus/prometheus/tsdb"
+	"github.com/prometheus/prometheus/tsdb/chunkenc"
 
 	"github.com/thanos-io/objstore"
 
@@ -469,17 +470,32 @@ func vfc28BuildBlock(parent string, rng *rand.Rand, wantSegs int, mint, maxt int
 		}
 		_ = os.RemoveAll(headOpts.ChunkDirRoot)
 	}()
-	nSeries := 3*wantSegs + rng.Intn(5)
-	nSamples := 40 + rng.Intn(140)
+	// every series has the same number (<= 110, i.e. one chunk) of random float samples, so all series
+	// occupy nearly the same number of bytes; the size of one series is computed with the same XOR
+	// encoder and the segment size is chosen so that perSeg series fit into one segment file.
+	perSeg := 2 + rng.Intn(2)
+	nSeries := wantSegs * perSeg
+	nSamples := 40 + rng.Intn(70)
 	step := (maxt - mint) / int64(nSamples+1)
+	var oneSeries int64
 	app := h.Appender(ctx)
 	for s := 0; s < nSeries; s++ {
 		lset := labels.FromStrings("__name__", "vf_metric", "series", strconv.Itoa(s))
+		xc := chunkenc.NewXORChunk()
+		xa, err := xc.Appender()
+		if err != nil {
+			return blk, err
+		}
 		for i := 0; i < nSamples; i++ {
-			if _, err := app.Append(0, lset, mint+int64(i)*step, rng.Float64()); err != nil {
+			v := rng.Float64()
+			if _, err := app.Append(0, lset, mint+int64(i)*step, v); err != nil {
 				_ = app.Rollback()
 				return blk, errors.Wrap(err, "append")
 			}
+			xa.Append(mint+int64(i)*step, v)
+		}
+		if n := int64(len(xc.Bytes())) + 10; n > oneSeries {
+			oneSeries = n
 		}
 	}
 	if err := app.Commit(); err != nil {
@@ -501,34 +517,23 @@ func vfc28BuildBlock(parent string, rng *rand.Rand, wantSegs int, mint, maxt int
 		des, err := os.ReadDir(filepath.Join(parent, ids[0].String(), thanosblock.ChunksDirname))
 		return ids[0], des, err
 	}
-	id, des, err := write(0)
+	seg := 8 + int64(perSeg)*oneSeries + oneSeries/2
+	if wantSegs == 1 {
+		seg = 8 + int64(nSeries+2)*oneSeries + 4096
+	}
+	id, des, err := write(seg)
 	if err != nil {
 		return blk, errors.Wrap(err, "write block")
 	}
-	if wantSegs > 1 {
-		fi, err := des[0].Info()
-		if err != nil {
-			return blk, err
+	for try := 0; try < 3 && (len(des) < 1 || len(des) > 3); try++ {
+		_ = os.RemoveAll(filepath.Join(parent, id.String()))
+		seg += oneSeries
+		if id, des, err = write(seg); err != nil {
+			return blk, errors.Wrap(err, "write block")
 		}
-		payload := fi.Size() - 8
-		seg := payload/int64(wantSegs) + 8 + 24
-		for try := 0; try < 6; try++ {
-			_ = os.RemoveAll(filepath.Join(parent, id.String()))
-			if id, des, err = write(seg); err != nil {
-				return blk, errors.Wrap(err, "write block")
-			}
-			if len(des) == wantSegs {
-				break
-			}
-			if len(des) > wantSegs {
-				seg += payload / int64(wantSegs*6)
-			} else {
-				seg -= payload / int64(wantSegs*8)
-			}
-		}
-		if len(des) < 1 || len(des) > 3 {
-			return blk, errors.Errorf("could not get 1..3 segment files (got %d)", len(des))
-		}
+	}
+	if len(des) < 1 || len(des) > 3 {
+		return blk, errors.Errorf("could not get 1..3 segment files (got %d)", len(des))
 	}
 	blk = vfc28Blk{ID: id, Dir: filepath.Join(parent, id.String()), Segs: len(des), Files: map[string]int64{}}
 	m, err := metadata.ReadFromDir(blk.Dir)
@@ -635,6 +640,10 @@ var (
 )
 
 func vfc28ReplicateScenario(src *objstore.InMemBucket, nBlocks, segs int) *vfc28Scenario {
+	// one fetcher for all runs of the scenario, as the replicator keeps one for all its runs
+	from := objstore.WithNoopInstr(src)
+	fetcher, ferr := newMetaFetcher(vfc28Logger, from, nil,
+		thanosmodel.TimeOrDurationValue{Time: &vfc28MinT}, thanosmodel.TimeOrDurationValue{Time: &vfc28MaxT}, 4, false)
 	return &vfc28Scenario{
 		driver:  "replicate.execute",
 		variant: fmt.Sprintf("source-blocks=%d", nBlocks),
@@ -643,11 +652,8 @@ func vfc28ReplicateScenario(src *objstore.InMemBucket, nBlocks, segs int) *vfc28
 			return vfc28NewBucket(objstore.NewInMemBucket()), nil
 		},
 		run: func(e *vfc28Exec) error {
-			from := objstore.WithNoopInstr(src)
-			fetcher, err := newMetaFetcher(vfc28Logger, from, nil,
-				thanosmodel.TimeOrDurationValue{Time: &vfc28MinT}, thanosmodel.TimeOrDurationValue{Time: &vfc28MaxT}, 4, false)
-			if err != nil {
-				return err
+			if ferr != nil {
+				return ferr
 			}
 			m, err := labels.NewMatcher(labels.MatchEqual, "vf", "blk")
 			if err != nil {
@@ -759,8 +765,8 @@ func TestVF_C28(t *testing.T) {
 		"per driver one fault-free run and, for EVERY bucket operation k of that run, runs with a fault at k (fail-stop|fail-once x mutation lost|applied-without-reply) each followed by re-invocation until success; " +
 		"oracle = online checker called by the fault bucket after every applied mutation, reading the in-memory bucket directly: every block whose meta.json is present has every file meta.json lists with the recorded size; a block whose deletion started with a deletion mark keeps the mark while any other object of it exists; " +
 		"evaluation = one inspected bucket state; distinct = (case, driver variant, fault mode, k) of runs in which the fault was really injected and a state with a visible meta.json (listing files) or an unfinished marked deletion was inspected")
-	n := r.N(6, 1200)
-	r.Require(int64(n)*400, n*40)
+	n := r.N(12, 250)
+	r.Require(int64(n)*300, n*40)
 	r.Assume("an object becomes visible atomically (objstore contract; the in-memory bucket commits an upload in one step)")
 	r.Assume("crash at point k == the operation sequence stops after a prefix: every prefix is inspected online; fail-stop runs add the error/cleanup paths; real SIGKILL adds nothing for a bucket-state invariant and is not used")
 	r.Assume("replication source blocks are complete (they were uploaded without faults)")
